@@ -840,9 +840,10 @@ class Manager:
                 self.unregisterTask((event, task, parent))
                 if parent:
                     value = parent.throw(value.extract())
-                    if value is not None:
-                        value_generator = (val for val in (value,))
-                        self.registerTask((event, value_generator, parent))
+                    # the caller handled the exception and yielded again
+                    # (possibly None): keep stepping it
+                    value_generator = (val for val in (value,))
+                    self.registerTask((event, value_generator, parent))
                 else:
                     raise value.extract()
             elif isinstance(value, Sleep):
